@@ -4,6 +4,7 @@ import Model.Bhiksha
 import Model.Quant
 import Model.TrieLM
 import Model.TrieBuild
+import Model.TrieG
 /-! Driver for stream `binary` (C04): prints, from counts + configuration only, the header bytes and
 every offset of the file layout in the same canonical form as harness/c04.cc prints what the real
 code computed. -/
@@ -181,6 +182,33 @@ def step (st : Option KV.TrieLM.Trie) (line : String) : Option KV.TrieLM.Trie ×
             (some M, s!"tb ok counts={commaSep b.counts} blanks={b.blanks.length} represents={rep} diff byte={low / 8 - start} model={(M.mem >>> (8 * (low / 8))) % 256} real={(real >>> (8 * (low / 8))) % 256}")
       | _, _ => (st, "bad-op")
     | _, _, _, _, _ => (st, "bad-op")
+  | "triebuildG" :: kind :: bhik :: pb :: bb :: order :: bound :: start :: unk :: rest =>
+    -- triebuildG kind bhikshaBits probBits backoffBits order bound start unkbits  ids:p:b …  realhex
+    -- kind: 0 trie, 1 array-trie, 2 quant-trie, 3 quant-array-trie; the search region written by Model/TrieG.ofTableG
+    match kind.toNat?, bhik.toNat?, pb.toNat?, bb.toNat?, order.toNat?, bound.toNat?, start.toNat?, unk.toNat?, rest.getLast? with
+    | some kind, some bhik, some pb, some bb, some order, some bound, some start, some unk, some hex =>
+      let grams := rest.dropLast.mapM fun t =>
+        match t.splitOn ":" with
+        | [ids, p, b] =>
+          match nats (ids.splitOn ","), p.toNat?, b.toNat? with
+          | some k, some p, some b => some ({ key := k, prob := p, backoff := b } : KV.TrieBuild.Gram)
+          | _, _, _ => none
+        | _ => none
+      match grams, hexToBytes hex with
+      | some gs, some bs =>
+        match KV.TrieBuild.buildTableArpa KV.TrieBuild.f32add order gs unk with
+        | .error e => (st, s!"tbg err {repr e}")
+        | .ok b =>
+          let q := if kind ≥ 2 then some (KV.TrieLM.QSpec.train KV.TrieLM.f32BitsOps pb bb b.table order) else none
+          let M := KV.TrieLM.ofTableG b.table bound order start q (kind % 2 == 1) bhik
+          let real := natOfBytes bs <<< (8 * start)
+          let x := M.mem ^^^ real
+          if x = 0 then (some M, s!"tbg ok kind={kind} equal")
+          else
+            let low := Nat.log2 (x - (x &&& (x - 1)))
+            (some M, s!"tbg ok kind={kind} diff byte={low / 8 - start} model={(M.mem >>> (8 * (low / 8))) % 256} real={(real >>> (8 * (low / 8))) % 256}")
+      | _, _ => (st, "bad-op")
+    | _, _, _, _, _, _, _, _, _ => (st, "bad-op")
   | "triecheck" :: order :: toks =>
     -- triecheck order  ids:p:b:begin:end …  (middle/unigram keys)   ids:p (longest keys); ids comma separated, reversed n-gram
     match st, order.toNat? with
